@@ -56,6 +56,14 @@ fn refuse(size: usize) -> ! {
     }
     unsafe {
         libc::write(2, buf.as_ptr() as *const libc::c_void, n);
+    }
+    // name the requesting function of the code under test (allocating is fine now: the cap is
+    // switched off first and this process is about to abort anyway)
+    CAP_ON.store(false, Ordering::Relaxed);
+    let site = crate::fw::in_repo_site();
+    let line = format!("amv-alloc-cap: site={}\n", if site.is_empty() { "?" } else { &site });
+    unsafe {
+        libc::write(2, line.as_ptr() as *const libc::c_void, line.len());
         libc::abort();
     }
 }
